@@ -27,6 +27,9 @@ type Dims struct {
 	AllocBatches   bool    `json:"allocBatches"`
 	NKeys          int     `json:"nkeys"`
 	Paths          []string `json:"paths"`
+	LeakCheck      bool    `json:"leakCheck"` // C15: after everything is closed nothing of the directory may stay open or mapped
+	KeepFiles      bool    `json:"keepFiles"`
+	CloseOrder     string  `json:"closeOrder"` // "snapsFirst" (default) | "storeFirst": order in which the driver closes what the behaviour left open
 	Preload        []int   `json:"preload"` // keys the lower level holds (token 9) before the behaviour starts
 	ConcrProfile   string  `json:"concr"`
 	Seed           int64   `json:"seed"`
@@ -111,6 +114,7 @@ type Session struct {
 	heldStoreExp  Content
 	heldStoreOpen bool
 	openErr       string
+	leaks         []Mismatch
 	life  string
 	failWrites int32
 	flog  *FileLog
@@ -137,7 +141,7 @@ func (s *Session) collOptions() moss.CollectionOptions {
 }
 
 func (s *Session) storeOptions() (moss.StoreOptions, moss.StorePersistOptions) {
-	so := moss.StoreOptions{CollectionOptions: s.collOptions(),
+	so := moss.StoreOptions{CollectionOptions: s.collOptions(), KeepFiles: s.D.KeepFiles,
 		CompactionLevelMaxSegments: s.D.LevelMaxSegs, CompactionLevelMultiplier: s.D.LevelMult}
 	so.OpenFile = s.openFile
 	po := moss.StorePersistOptions{NoSync: s.D.NoSync}
@@ -209,6 +213,69 @@ func (s *Session) Open() error {
 	}
 	s.life = "open"
 	return s.sched.AwaitParked("merger.loop", stepTimeout)
+}
+
+// leakCheck polls (file removal and unmapping may be asynchronous) until the
+// process holds no descriptor and no mapping of the store directory and the
+// directory lists at most one data file; what is left after the bound is a leak.
+func (s *Session) leakCheck() (out []Mismatch) {
+	if s.dir == "" {
+		return nil
+	}
+	deadline := time.Now().Add(3 * time.Second)
+	var fds, maps, files []string
+	for {
+		fds, maps, files = procRefs(s.dir)
+		if len(fds) == 0 && len(maps) == 0 && (len(files) <= 1 || s.D.KeepFiles) {
+			return nil
+		}
+		if time.Now().After(deadline) {
+			break
+		}
+		time.Sleep(2 * time.Millisecond)
+	}
+	if len(fds) > 0 {
+		out = append(out, Mismatch{What: "leak.fd", Got: fmt.Sprint(fds), Want: "no open descriptor of the store directory"})
+	}
+	if len(maps) > 0 {
+		out = append(out, Mismatch{What: "leak.maps", Got: fmt.Sprint(maps), Want: "no mapping of the store directory"})
+	}
+	if len(files) > 1 && !s.D.KeepFiles {
+		out = append(out, Mismatch{What: "leak.files", Got: fmt.Sprint(files), Want: "only the current data file"})
+	}
+	return
+}
+
+// procRefs lists the descriptors and mappings of this process that refer to
+// files of dir, and the data files of dir.
+func procRefs(dir string) (fds, maps, files []string) {
+	if ents, err := ioutil.ReadDir("/proc/self/fd"); err == nil {
+		for _, e := range ents {
+			if t, err := os.Readlink("/proc/self/fd/" + e.Name()); err == nil && strings.HasPrefix(t, dir+"/") {
+				fds = append(fds, strings.TrimPrefix(t, dir+"/"))
+			}
+		}
+	}
+	if b, err := ioutil.ReadFile("/proc/self/maps"); err == nil {
+		seen := map[string]bool{}
+		for _, line := range strings.Split(string(b), "\n") {
+			if i := strings.Index(line, dir+"/"); i >= 0 {
+				name := strings.TrimPrefix(line[i:], dir+"/")
+				if !seen[name] {
+					seen[name] = true
+					maps = append(maps, name)
+				}
+			}
+		}
+	}
+	if ents, err := ioutil.ReadDir(dir); err == nil {
+		for _, e := range ents {
+			if strings.HasPrefix(e.Name(), "data-") {
+				files = append(files, e.Name())
+			}
+		}
+	}
+	return
 }
 
 // preload persists the initial content of the lower level (InitKeys of the
@@ -482,6 +549,13 @@ func (s *Session) Do(st Step) error {
 		}
 		s.life = "closed"
 		sc.Unbind()
+		if s.D.LeakCheck && len(s.snaps) == 0 {
+			if s.heldStore != nil {
+				s.heldStore.Close()
+				s.heldStore = nil
+			}
+			s.leaks = s.leakCheck()
+		}
 	case "Reopen":
 		s.coll, s.store = nil, nil
 		if err := s.Open(); err != nil {
@@ -518,6 +592,10 @@ func (s *Session) pollStat(pred func(*moss.CollectionStats) bool) error {
 func (s *Session) Observe(idx int, st Step, full bool) StepResult {
 	r := StepResult{Step: idx, Act: st.Act}
 	exp := st.Exp
+	if len(s.leaks) > 0 {
+		r.Mismatches = append(r.Mismatches, s.leaks...)
+		s.leaks = nil
+	}
 	if s.openErr != "" {
 		r.Mismatches = append(r.Mismatches, Mismatch{What: "reopen.open", Got: s.openErr, Want: "reopen succeeds"})
 		r.Abort = true
@@ -686,6 +764,54 @@ func (s *Session) injectUpdateFailure() {
 	}
 }
 
+// finalLeakCheck closes whatever the behaviour left open, in the order chosen
+// by the dimensions, and then checks that nothing of the directory is held.
+func (s *Session) finalLeakCheck() []Mismatch {
+	closeSnaps := func() {
+		for id, ss := range s.snaps {
+			ss.Close()
+			delete(s.snaps, id)
+		}
+		if s.heldStore != nil {
+			s.heldStore.Close()
+			s.heldStore = nil
+		}
+	}
+	closeColl := func() {
+		if s.coll == nil || s.life == "closed" {
+			return
+		}
+		if s.sched != nil {
+			s.sched.OpenAll()
+		}
+		done := make(chan struct{})
+		go func() {
+			if s.life == "closing" {
+				<-s.closeDone
+			} else {
+				s.coll.Close()
+			}
+			close(done)
+		}()
+		select {
+		case <-done:
+		case <-time.After(stepTimeout):
+		}
+		if s.store != nil {
+			s.store.Close()
+		}
+		s.life = "closed"
+	}
+	if s.D.CloseOrder == "storeFirst" {
+		closeColl()
+		closeSnaps()
+	} else {
+		closeSnaps()
+		closeColl()
+	}
+	return s.leakCheck()
+}
+
 // Replay runs a whole behaviour.
 func Replay(id int, d Dims, steps []Step) (res Result) {
 	res.ID = id
@@ -727,6 +853,12 @@ func Replay(id int, d Dims, steps []Step) (res Result) {
 		}
 		if sr.Abort {
 			break
+		}
+	}
+	if d.LeakCheck && d.Mode == "store" {
+		if mm := s.finalLeakCheck(); len(mm) > 0 {
+			res.Steps = append(res.Steps, StepResult{Step: len(steps), Act: "CloseEverything", Mismatches: mm})
+			bad = true
 		}
 	}
 	for k := range shapes {
